@@ -391,6 +391,8 @@ def plant_kinds(doc):
         out.append(("type-mismatch-string", wi, "statusTip: 42"))
         out.append(("unknown-attached-type", wi, "NoSuchType.prop: 1"))
         out.append(("unknown-group-member", wi, "font.noSuchMember: 3"))
+        # the same group named by two blocks on one object: members of both blocks are bindings of that object
+        out.append(("unknown-group-member", wi, "font { noSuchMember: 3 } font { kerning: false }"))
         out.append(("undefined-reference", wi, "whatsThis: noSuchObject.text"))
         out.append(("readonly-property", wi, "width: 10"))
         out.append(("unsupported-shift", wi, 'accessibleName: "a" >> 1'))
